@@ -2,6 +2,11 @@
 mod c10;
 mod c19;
 mod c21;
+mod c26;
+mod c40;
+mod c50;
+mod c53;
+mod objstore;
 mod data;
 mod envutil;
 mod pool;
@@ -17,7 +22,7 @@ use dst_common::{Tier, seed_from_env};
 use runner::Check;
 
 fn checks() -> Vec<Check> {
-    vec![c10::check(), c21::check(), sqlchecks::c02(), sqlchecks::c05(), sqlchecks::c06(), sqlchecks::c08(), sqlchecks::c18(), sqlchecks::c19(), sqlchecks::c20(), sqlchecks::c31()]
+    vec![c10::check(), c21::check(), c26::check(), c40::check(), c50::check(), c53::check(), sqlchecks::c02(), sqlchecks::c05(), sqlchecks::c06(), sqlchecks::c08(), sqlchecks::c18(), sqlchecks::c19(), sqlchecks::c20(), sqlchecks::c31()]
 }
 
 fn usage() -> ! {
